@@ -430,4 +430,35 @@ func (dht *FullRT) FindProvidersAsync(ctx context.Context, key cid.Cid, count in
   ghost at call(Defined): $def = $ret0
   ghost at call(Hash): $mh = $ret0
   ghost at go(findProvidersAsyncRoutine): assert(dht.ProviderManager != nil && $def && $arg1 == $mh && $arg2 == count && $arg3 == peerOut && !$started); $started = true
+
+# ---- chunking of the bulk key list (C06/C16: every key is handed out once) ----------
+# every key lands in exactly one chunk, in order: $total keys are in the finished
+# chunks, chunkProgress in the open one; no chunk is empty or longer than chunkSize
+func divideByChunkSize(keys []peer.ID, chunkSize int) [][]peer.ID
+  props C16 C06
+  requires chunkSize >= 1
+  ghostvar $total int = 0
+  modifies nothing
+  ensures [every-key-in-a-chunk] $total == len(keys)
+  ensures [chunks-bounded-and-non-empty] all(c, 0, len(result), 1 <= len(result[c]) && len(result[c]) <= chunkSize)
+  loop 0 invariant 0 <= chunkProgress && chunkProgress < chunkSize && len(nextChunk) == chunkProgress && $total + chunkProgress == $key && all(c, 0, len(keyChunks), 1 <= len(keyChunks[c]) && len(keyChunks[c]) <= chunkSize)
+  loop 0 invariant all(j, 0, chunkProgress, nextChunk[j] == keys[$key - chunkProgress + j])
+  ghost at append(keyChunks): $total = $total + len(nextChunk); assert(len(nextChunk) >= 1 && len(nextChunk) <= chunkSize)
+
+# a bulk put sends, for the key of the work item, the record built from THAT key
+# and the value given for it
+funclit 0 in (dht *FullRT) PutMany(ctx context.Context, keys []string, values [][]byte) error
+  props C06
+  requires keyRecMap != nil
+  ghostvar $rec *recpb.Record = nil
+  ghost at before call(MakePutRecord): assert($arg0 == str(k) && $arg1 == keyRecMap[str(k)])
+  ghost at call(MakePutRecord): $rec = $ret0
+  ghost at before call(PutValue): assert($arg0 == ctx && $arg1 == p && $arg2 == $rec)
+
+func (dht *FullRT) PutMany(ctx context.Context, keys []string, values [][]byte) error
+  props C06
+  requires dht.bucketSize > 0 && dht.ipDiversityFilterLimit >= 0
+  modifies *
+  loop 0 invariant keyRecMap != nil && len(keysAsPeerIDs) == $key && all(j, 0, $key, str(keysAsPeerIDs[j]) == keys[j] && has(keyRecMap, keys[j])) && len(keys) == len(values)
+  ghost at before call(bulkMessageSend): assert($arg1 == keysAsPeerIDs && len(keysAsPeerIDs) == len(keys) && len(keyRecMap) == len(keys))
 @*/
